@@ -101,7 +101,7 @@ func buildAll(h *gram.Handle, ks []int, ciChoice bool) *gparsers {
 		return &gparsers{err: err}
 	}
 	gp := &gparsers{g: g, h: h, an: gram.Analyse(g), byK: map[int]gram.Built{}, elided: gram.ElidedNames(g.Profile)}
-	if ciChoice && g.Profile != gram.ProfDefault {
+	if ciChoice && (g.Profile == gram.ProfStateful || g.Profile == gram.ProfLower) {
 		gp.ci = []string{"Kw"}
 	}
 	for _, k := range ks {
